@@ -598,6 +598,18 @@ func init() {
 				}
 				return c.Add(h, sexp.Bytes([]byte(renderChunks(last))))
 			}
+			if r.Chance(1, 6) {
+				// a conversation: lines of few speakers, written with every spacing after the colon (none, one blank, several,
+				// a tab), sometimes with a marker right after it; what a parser remembers about the previous speaker must not matter
+				speaker := func() string {
+					return r.Pick("Mae", "Mae", "Bea", "M", "名") + ":" + r.Pick("", " ", " ", "  ", "   ", "\t", " \t ") +
+						r.Pick("Hi!", "Well", "[wave]Hi![/wave]", "[b/] x", "", "a: b")
+				}
+				for k := 1 + r.Intn(3); k > 0; k-- {
+					h.Add(sexp.Bytes([]byte(speaker())))
+				}
+				return c.Add(h, sexp.Bytes([]byte(speaker())))
+			}
 			for k := r.Intn(6); k > 0; k-- {
 				if r.Chance(1, 2) {
 					h.Add(sexp.Bytes(fuzzLine(r)))
